@@ -62,7 +62,7 @@ var statusCmd = &cobra.Command{
 		var deletedFiles []string
 		for _, entry := range client.Idx.Entries {
 			filePath := string(entry.Path)
-			if _, err := os.Stat(filePath); os.IsNotExist(err) {
+			if _, err := os.Stat(filePath); err != nil { // missing, or below a regular file (ENOTDIR)
 				deletedFiles = append(deletedFiles, filePath)
 			} else if client.Ignore.IsIncluded(filePath, client.Idx) {
 				// ignore rules hide untracked files only, but the walk above skips every ignored path,
